@@ -177,6 +177,23 @@ func DegenerateShapes(r *R) []Degenerate {
 		f.Services = []*ir.Service{svcFor("d.emptylit", "Q", "Q")}
 		add("empty_string_literals", f)
 	}
+	// 11b'. headers of every declared type with examples that are no value of that type (and some that are)
+	{
+		f := mk("hdrex", "d.hdrex")
+		f.Messages = []*ir.Message{{Name: "Q", Fields: []*ir.Field{{Name: "v", Number: 1, Kind: "string"}}}}
+		svc := svcFor("d.hdrex", "Q", "Q")
+		odd := []string{"1,000", "0089", "18446744073709551616", "30s", "1", "yes", "e", "12", "true", "1.5", "-7", "null", "~", "0x1F"}
+		for i, t := range []string{"integer", "boolean", "number", "string", "array", ""} {
+			svc.Headers = append(svc.Headers, ir.Header{Name: fmt.Sprintf("X-Svc-%d", i), Type: t, Example: odd[i%len(odd)]})
+			for j := 0; j < 3; j++ {
+				if len(svc.Methods) > 0 {
+					svc.Methods[0].Headers = append(svc.Methods[0].Headers, ir.Header{Name: fmt.Sprintf("X-M-%d-%d", i, j), Type: t, Example: odd[(3*i+j+1)%len(odd)], Required: j == 0})
+				}
+			}
+		}
+		f.Services = []*ir.Service{svc}
+		add("typed_headers_with_odd_examples", f)
+	}
 	// 11c. enums with a single value (only the zero entry) and the dynamically typed well-known types (whose
 	// NullValue enum has one value too) in a response: directly, through a singular child, in a map value
 	{
